@@ -5,6 +5,7 @@ import (
 	"fmt"
 	"io"
 	"strings"
+	"syscall"
 	"testing"
 
 	bip39 "github.com/islishude/bip39"
@@ -21,7 +22,7 @@ import (
 
 type readEvent struct {
 	K   int    `json:"k"`             // bytes offered by this Read (capped at len(p))
-	Err string `json:"err,omitempty"` // "", "EOF", "UnexpectedEOF", "custom"
+	Err string `json:"err,omitempty"` // "", "EOF", "UnexpectedEOF", "custom", "EAGAIN", "timeout"
 }
 
 type readerCase struct {
@@ -34,6 +35,13 @@ type readerCase struct {
 
 var errCustom = errors.New("verif: injected source failure")
 
+// errTimeout looks like a net/os deadline error (Timeout() and Temporary() report true).
+type errTimeout struct{}
+
+func (errTimeout) Error() string   { return "verif: injected i/o timeout" }
+func (errTimeout) Timeout() bool   { return true }
+func (errTimeout) Temporary() bool { return true }
+
 func eventErr(s string) error {
 	switch s {
 	case "":
@@ -44,6 +52,10 @@ func eventErr(s string) error {
 		return io.ErrUnexpectedEOF
 	case "custom":
 		return errCustom
+	case "EAGAIN":
+		return syscall.EAGAIN // Temporary() == true: what a non-blocking descriptor returns
+	case "timeout":
+		return errTimeout{}
 	}
 	harnessError("unknown error kind %q", s)
 	return nil
@@ -157,7 +169,7 @@ var c06Check = register("C06", "c06.reader", func(c *readerCase) error {
 	return nil
 })
 
-const c06Rule = "C06: scripted randomness sources installed through the verif hook. Complete grid: n in {12,15,18,21,24} x failure point k in 0..4n/3-1 x kind {EOF, ErrUnexpectedEOF, custom} x {error alone, error together with the last partial chunk} x fragmentation {one chunk, byte-wise, fixed cuts} x 10 languages; every fragmentation class of a successful delivery (single read, byte-wise, cuts, zero-byte reads interleaved, source offering more than asked, error together with the completing bytes); plus rapid-generated scripts. The source keeps delivering after a failure. Oracle: bytes delivered before the first failure decide: >= 4n/3 => (reference encoding of the first 4n/3, nil); fewer => (\"\", non-nil). Non-trivial: a failure after >= 1 delivered byte, or >= 2 fragments; distinct by the whole script"
+const c06Rule = "C06: scripted randomness sources installed through the verif hook. Complete grid: n in {12,15,18,21,24} x failure point k in 0..4n/3-1 x kind {EOF, ErrUnexpectedEOF, custom, EAGAIN (Temporary), timeout (Timeout/Temporary)} x {error alone, error together with the last partial chunk} x fragmentation {one chunk, byte-wise, fixed cuts} x 10 languages; every fragmentation class of a successful delivery (single read, byte-wise, cuts, zero-byte reads interleaved, source offering more than asked, error together with the completing bytes); plus rapid-generated scripts. The source keeps delivering after a failure. Oracle: bytes delivered before the first failure decide: >= 4n/3 => (reference encoding of the first 4n/3, nil); fewer => (\"\", non-nil). Non-trivial: a failure after >= 1 delivered byte, or >= 2 fragments; distinct by the whole script"
 
 func c06Record(c *readerCase) {
 	cov.Eval(1)
@@ -223,7 +235,7 @@ func TestC06_Grid(t *testing.T) {
 		for _, n := range ref.Counts {
 			need := n / 3 * 4
 			for k := 0; k < need; k++ {
-				for _, kind := range []string{"EOF", "UnexpectedEOF", "custom"} {
+				for _, kind := range []string{"EOF", "UnexpectedEOF", "custom", "EAGAIN", "timeout"} {
 					for _, style := range []string{"one", "bytewise", "cuts"} {
 						for _, withBytes := range []bool{false, true} {
 							item++
@@ -273,7 +285,7 @@ func TestC06_Grid(t *testing.T) {
 			}
 		}
 	}
-	cov.Exhaustive("5 counts x every failure point 0..4n/3-1 x 3 kinds x 2 (alone / with bytes) x 3 fragmentations x 10 languages")
+	cov.Exhaustive("5 counts x every failure point 0..4n/3-1 x 5 kinds x 2 (alone / with bytes) x 3 fragmentations x 10 languages")
 }
 
 func TestC06_Random(t *testing.T) {
@@ -287,7 +299,7 @@ func TestC06_Random(t *testing.T) {
 		ev := rapid.SliceOfN(rapid.Custom(func(t *rapid.T) readEvent {
 			return readEvent{
 				K:   rapid.OneOf(rapid.IntRange(0, 3), rapid.IntRange(0, 40), rapid.Just(1)).Draw(t, "k"),
-				Err: rapid.SampledFrom([]string{"", "", "", "", "", "", "", "EOF", "UnexpectedEOF", "custom"}).Draw(t, "err"),
+				Err: rapid.SampledFrom([]string{"", "", "", "", "", "", "", "", "", "EOF", "UnexpectedEOF", "custom", "EAGAIN", "timeout"}).Draw(t, "err"),
 			}
 		}), 0, 40).Draw(rt, "events")
 		c := &readerCase{Lang: l.Name(), N: n, Data: data, Events: ev, Shape: "random/" + e.Shape}
